@@ -520,9 +520,22 @@ the destination is inspected after the writer is dropped. non-trivial = at least
 			}
 		}
 	}
+	// payload sizes whose LOW 32 bits look valid (k * 2^32 + s): still invalid, with and without writes that would then be truncated
+	for ps in [(1usize << 32) + 1, (1 << 32) + 4, (1 << 32) + 256, (1 << 32) + 476, (1 << 33) + 476, (1 << 33) + 256, (3 << 32) + 64, (1 << 63) + 256, usize::MAX - 0xFFFF_FEFF]
+	{
+		for al in [1usize, 4, ps, 1 << 32, (1 << 32) + 4]
+		{
+			for dst in [Dst::Slice(2048), Dst::Vector(5)]
+			{
+				cases.push(Case{fam: Some(0xE48BFF56), ps, al, dst: dst.clone(), ops: Vec::new()});
+				let mk = |all: bool, n: u64| Op{all, addr: 0x1000_0000, text: format!("#{n},7,3"), data: data_of_text(&format!("#{n},7,3")).unwrap(), no_flash: false};
+				cases.push(Case{fam: None, ps, al, dst, ops: vec![mk(false, 300), mk(false, 256), mk(true, 100), mk(true, 600)]});
+			}
+		}
+	}
 	for ps in [1usize, 2, 6, 255, 256, 475, 476]
 	{
-		for al in [0usize, ps + 1, 2 * ps, 477, 512, usize::MAX, usize::MAX - 1, 1 << 63]
+		for al in [0usize, ps + 1, 2 * ps, 477, 512, usize::MAX, usize::MAX - 1, 1 << 63, (1 << 32) + ps, 1 << 32]
 		{
 			cases.push(Case{fam: Some(1), ps, al, dst: Dst::Slice(512), ops: Vec::new()});
 			cases.push(Case{fam: None, ps, al, dst: Dst::Vector(0), ops: Vec::new()});
